@@ -267,12 +267,20 @@ def run_abort_cases(rep, tier, seed, prop="C05"):
                           "  scene s entails for a: mark",
                           "  storyline " + story, "end"]) + "\n"
         cases.append(text)
-    # a failure reported AFTER several lines of the same group have reported success must not be lost
-    for i in range(2 if tier == "quick" else 8):
+    # a failure reported AFTER several lines of the same group have reported success must not be lost; the failing command
+    # ends in one of the ways a shell command fails: `exit N`, the failing member of an `&&` list, a negated command
+    # (the last two are not aborted by `set -e`: the script's status is that of its last command)
+    for i in range(3 if tier == "quick" else 9):
         nok = rng.range(2, 4)
         actors = ["a"] + ["k%d" % j for j in range(nok)]
+        fcmd = playgen.action_cmd("fail", rng.pick([0.2, 0.3, 0.4]), 3)
+        style = i % 3
+        if style == 1:
+            fcmd = fcmd[:fcmd.rindex("exit 3")] + "test -e /nonexistent/verif-x && echo found"
+        elif style == 2:
+            fcmd = fcmd[:fcmd.rindex("exit 3")] + "! true"
         text = "\n".join(["role r",
-                          "  :fail " + playgen.action_cmd("fail", rng.pick([0.2, 0.3, 0.4]), 3),
+                          "  :fail " + fcmd,
                           "  :fine " + playgen.action_cmd("fine", 0, 0),
                           "  :mark " + playgen.action_cmd("mark", 0, 0),
                           "end", "cast"] + ["  %s plays r" % x for x in actors] + ["end", "script", "  tempo 100ms"]
